@@ -117,12 +117,17 @@ def run(ctx):
     if rc != 0 or not recs:
         ctx.broken("record driver died: " + out[-1500:])
         return
-    walks, trk, cur = [], [], None
+    # runs with a memoising fetcher can show the open deviation: they are validated apart, everything else
+    # (walks and directly driven trackers) against the ideal spec only
+    clean, exposed, walks, cur = [], [], [], None
     for r in recs:
         if r["ev"] == "Reset":
-            cur = trk if not r["roots"] else walks
+            cur = exposed if r["cached"] else clean
+            if r["roots"]:
+                walks.append(r)
         cur.append(r)
-    ctx.log("T: %d walk events (%d runs), %d tracker events" % (len(walks), sum(1 for r in walks if r["ev"] == "Reset"), len(trk)))
+    ctx.log("T: %d events in %d clean runs, %d events in %d runs with a memoising fetcher" %
+            (len(clean), sum(1 for r in clean if r["ev"] == "Reset"), len(exposed), sum(1 for r in exposed if r["ev"] == "Reset")))
 
     def drop_emit(rs):        # binding control: one emission is removed from the log
         idx = [i for i, r in enumerate(rs) if r["ev"] == "Emit"]
@@ -140,10 +145,16 @@ def run(ctx):
         bad[i]["ret"] = True
         return bad, i
     nruns = lambda rs: sum(1 for r in rs if r["ev"] == "Reset")
-    ctx.validate_trace("ProvideWalk", "TraceProvideWalk.tla", "TraceProvideWalk.cfg", walks, name="walks",
-                       timeout=2400, count_runs=nruns, negative=drop_emit)
-    ctx.validate_trace("ProvideWalk", "TraceProvideWalk.tla", "TraceProvideWalk.cfg", trk, name="trackers",
-                       timeout=2400, count_runs=nruns, negative=forget)
+    if not clean or not exposed:
+        ctx.broken("record driver produced no %s runs" % ("clean" if not clean else "memoising-fetcher"))
+        return
+    ctx.validate_trace("ProvideWalk", "TraceProvideWalk.tla", "TraceProvideWalk.cfg", clean, name="clean",
+                       timeout=3600, count_runs=nruns, negative=forget if (q and ctx.seed % 2) else drop_emit)
+    if not q:
+        ctx.validate_trace("ProvideWalk", "TraceProvideWalk.tla", "TraceProvideWalk.cfg", clean, name="clean2",
+                           timeout=3600, count_runs=nruns, negative=forget)
+    ctx.validate_trace("ProvideWalk", "TraceProvideWalk.tla", "TraceProvideWalk.cfg", exposed, name="memo",
+                       timeout=3600, count_runs=nruns)
     for r in walks:
         if r["ev"] == "Reset" and (len(r["roots"]) > 1 or not all(r["fok"])):
             ctx.nontrivial(r)
